@@ -1,12 +1,71 @@
-import PoolModel.C10Account
-/-! C10 headline theorems (work in progress: breadth-first slice). -/
+import PoolProofs.C10LemmasTx
+import PoolProofs.C10LemmasOrder
+/-! # C10 – stored accounts, orders and batch snapshots read back unchanged (headline theorems)
+
+Model: `PoolModel/C10*.lean`; helper lemmas: `PoolProofs/C10Lemmas*.lean`. -/
 namespace Pool.C10
 open Pool.Gen
 
-/-- (R) the write list of `serializeAccount` names the same fields, in the same order, as the read list of
-`deserializeAccount` (expressions compared through the field table). -/
-theorem acct_lists_known :
+/-! ## (R) facts about the regenerated lists -/
+
+/-- Every Go expression in the element lists of the account serialiser/deserialiser is known to the field
+table, the two lists name the same fields in the same order, and both agree on the states without LatestTx. -/
+theorem acct_lists_agree :
     (elemList "serializeAccount" 0).all (fun n => (acctTbl n).isSome) = true ∧
-    (elemList "deserializeAccount" 0).all (fun n => (acctTbl n).isSome) = true := by decide
+    (elemList "serializeAccount" 0).map (fun n => if n = "uint8(rawState)" then "rawState" else n) =
+      elemList "deserializeAccount" 0 ∧
+    elemList "serializeAccount" 1 = elemList "deserializeAccount" 1 ∧
+    Store.noLatestTx_serializeAccount = Store.noLatestTx_deserializeAccount ∧
+    (∀ s ∈ Store.accountStates.map (·.2), s < Store.accountStateVersionedMask) := by decide
+
+/-- The TLV records `serializeOrderTlvData` appends and the ones `deserializeOrderTlvData` registers carry
+strictly increasing type numbers and the same type constants; the account stream likewise. -/
+theorem tlv_types_increasing :
+    List.Pairwise (· < ·) (Lser.map fun p => tlvType p.1) ∧
+    List.Pairwise (· < ·) (Lde.map fun p => tlvType p.1) ∧
+    Lser.map (·.1) = Lde.map (·.1) ∧
+    (Store.tlvRecords.lookup "serializeAccountTlvData") = (Store.tlvRecords.lookup "deserializeAccountTlvData") :=
+  ⟨order_tlv_facts.1, order_tlv_facts.2.1, order_tlv_facts.2.2.1, by decide⟩
+
+/-! ## generic codec lemmas (restated from the lemma files) -/
+
+/-- fixed-width big-endian integers decode to what was encoded, whatever follows -/
+theorem fixedWidth_roundtrip (n v : Nat) (rest : Bytes) (h : v < 256 ^ n) :
+    readBE n (beEnc n v ++ rest) = .ok v rest := readBE_enc n v rest h
+
+/-- BigSize (canonical) round trip -/
+theorem bigSize_roundtrip (v : Nat) (rest : Bytes) (h : v < 2 ^ 64) :
+    readBigSize (encBigSize v ++ rest) = .ok v rest := readBigSize_enc v rest h
+
+/-- a TLV stream of well-formed records with strictly increasing types decodes to exactly those records -/
+theorem tlvStream_roundtrip (known : List (Nat × RecKind)) (rs : List TlvRec)
+    (hinc : IncFrom 0 rs) (hwf : ∀ r ∈ rs, r.WF) (hk : ∀ r ∈ rs, known.lookup r.typ = some r.kind) :
+    decodeStream known (encStream rs) = .ok (rs.map fun r => (r.typ, some r.val)) [] :=
+  decodeStream_enc known rs hinc hwf hk
+
+/-- `wire.MsgTx`: Deserialize inverts Serialize on every well-formed transaction, whatever follows; in
+particular the decoder's 4 MiB slab never overflows (no panic) -/
+theorem tx_roundtrip (t : Tx) (rest : Bytes) (h : t.WF) : readTx (encTx t ++ rest) = .ok t rest :=
+  readTx_enc t rest h
+
+/-! ## accounts -/
+
+/-- **Every well-formed account (all states, all versions) serialises without error and deserialises to
+itself**, leaving any following bytes untouched (so accounts can be nested in a snapshot). -/
+theorem account_roundtrip (a : Account) (rest : Bytes) (h : a.WF) :
+    ∃ b, serializeAccount a = .ok b ∧ deserializeAccount (b ++ rest) = .ok a rest :=
+  account_roundtrip_of (fun t r ht => readTx_enc t r ht) a rest h
+
+/-! ## orders -/
+
+/-- **Every well-formed ask or bid – any version, any combination of optional terms – is read back from
+its order bucket (keys `order`, `order-min-units-match`, `order-tlv`, `order-tier`) exactly as written.** -/
+theorem order_roundtrip (o : Order) (h : o.WF) : loadOrder o.kit.nonce (storeOrder o) = .ok o [] :=
+  order_bucket_rt o h
+
+/-- the base encoding alone keeps exactly the base-field projection -/
+theorem order_base_roundtrip (o : Order) (rest : Bytes) (h : o.kit.WF) :
+    deserializeOrder o.kit.nonce (serializeOrder o ++ rest) = .ok o.baseProj rest :=
+  order_base_rt o rest h
 
 end Pool.C10
